@@ -1,6 +1,7 @@
 package props
 
 import (
+	"strconv"
 	"encoding/json"
 	"fmt"
 	"reflect"
@@ -211,9 +212,14 @@ func c11Calls() []c11Call {
 				if a.Val.IsLL() && len(a.Val.Elems()) > 0 && strings.HasPrefix(a.Val.Elems()[0].Kind(), "u") {
 					tvs = append(tvs, &gpb.TypedValue{Value: &gpb.TypedValue_LeaflistVal{LeaflistVal: &gpb.ScalarArray{Element: []*gpb.TypedValue{{Value: &gpb.TypedValue_IntVal{IntVal: 1}}}}}})
 				}
-				for _, tv := range tvs {
+				for ti, tv := range tvs {
 					t := p.NewRoot()
 					g := a.Path.GNMI()
+					if ti == 1 { // the JSON_IETF payload travels with a non-canonical spelling of the keys
+						if nc := nonCanonicalPath(p, a.Path); nc != nil {
+							g = nc
+						}
+					}
 					g0, tv0 := proto.Clone(g), proto.Clone(tv)
 					opts := []ytypes.SetNodeOpt{&ytypes.InitMissingElements{}}
 					if opt == "init+tolerate" {
@@ -262,6 +268,18 @@ func c11Calls() []c11Call {
 					req.Update = append(req.Update, proto.Clone(u).(*gpb.Update))
 				} else {
 					req.Replace = append(req.Replace, proto.Clone(u).(*gpb.Update))
+				}
+			}
+			// non-canonical key spellings in half of the paths
+			for i, u := range req.Update {
+				if i%2 == 0 {
+					for _, e := range u.Path.Elem {
+						for k, v := range e.Key {
+							if _, err := strconv.ParseUint(v, 10, 64); err == nil {
+								e.Key[k] = "0" + v
+							}
+						}
+					}
 				}
 			}
 			req0 := proto.Clone(req)
@@ -344,6 +362,42 @@ func c11Calls() []c11Call {
 		})
 	}
 	return calls
+}
+
+// nonCanonicalPath renders q with key strings that denote the same keys but are not in ygot's
+// canonical spelling (leading zero, trailing fraction zero, module-prefixed names); nil if no key differs.
+func nonCanonicalPath(p *core.Pkg, q core.Path) *gpb.Path {
+	g := q.GNMI()
+	changed := false
+	for i, e := range q {
+		for _, kv := range e.Keys {
+			s := g.Elem[i].Key[kv.Name]
+			n := s
+			switch k := kv.Val.Kind(); {
+			case k == "enum":
+				n = p.SchemaName + ":" + s
+			case k == "dec":
+				if strings.Contains(s, ".") {
+					n = s + "0"
+				} else {
+					n = s + ".0"
+				}
+			case k == "bool", k == "str", k == "bin", k == "empty":
+			case strings.HasPrefix(s, "-"):
+				n = "-0" + s[1:]
+			default:
+				n = "0" + s
+			}
+			if n != s {
+				g.Elem[i].Key[kv.Name] = n
+				changed = true
+			}
+		}
+	}
+	if !changed {
+		return nil
+	}
+	return g
 }
 
 func collectLeafValues(v reflect.Value, out *[]interface{}, depth int) {
